@@ -460,6 +460,9 @@ def run(ctx: Ctx) -> None:
     rep.rule("C14.R20", "exactly the accepted modules are tracked, also those accepted while the evaluation runs: the analysis context holds the live set of accepted packages")
     n20 = accepted_set_is_live(ctx, "C14.R20")
     rep.floor("C14.R20", n20, 2)
+    rep.rule("C14.R21", "however deeply a module is nested, its canonical path has one segment per component of its dotted name (so that every accepted ancestor is a prefix)")
+    n21 = module_path_complete(ctx, "C14.R21")
+    rep.floor("C14.R21", n21, 1)
     from .common import refusal_live
     rep.rule("C14.R15", "a callable of a non-accepted module handed to dds.keep / dds.eval is refused whether it is a function or a class: in both entry functions of the analysis "
                         "the resolution of the call tree's paths (the step that raises 'module not accepted') is live code")
@@ -633,4 +636,45 @@ def accepted_set_is_live(ctx: Ctx, rule: str) -> int:
                     rep.ok(rule, f.qname, desc, f.loc(c))
                 else:
                     rep.bad(rule, f.qname, desc, f.loc(c), [f"{f.loc(c)}: `{ps[0]}={unparse(val, 50)}`"], stmt_key(c), what="the evaluation is given a copy of the accepted packages")
+    return n
+
+
+def module_path_complete(ctx: Ctx, rule: str) -> int:
+    """The canonical path of a module has one segment per component of its dotted name (abstract evaluation of `_mod_path` on a module named 'a.b.c.d'): the
+    authorisation test tries every prefix of that path, so a path that folds the leading components into one segment ('a.b.c', 'd') can only match the module itself
+    and its direct parent - a function of a deep module accepted through an ancestor two levels up is silently not tracked."""
+    from ..absint import Evaluator, Const, Obj, NOT_HANDLED
+    rep = ctx.report
+    prog = ctx.prog
+    cands = [f for f in prog.funcs.values() if f.module.name == "dds._retrieve_objects" and f.cls is None and len(f.positional_params()) == 1
+             and any(isinstance(y, ast.Attribute) and y.attr == "__name__" for y in f.own_nodes())
+             and any(isinstance(y, ast.Call) and unparse(y.func).endswith("from_list") for y in f.own_nodes())]
+    n = 0
+    for f in cands:
+        n += 1
+        got = []
+
+        def oracle(name, args, kwargs, node):
+            if name.endswith("from_list") and args:
+                got.append(args[0])
+                return Obj("canonical-path", args, {})
+            return NOT_HANDLED
+        desc = f"{f.name}: the path of the module 'a.b.c.d' has the four segments a, b, c, d"
+        try:
+            Evaluator(prog, oracle=oracle).run(f, [Obj("module", [], {"__name__": Const("a.b.c.d")})])
+        except Exception as e:
+            rep.unknown(rule, f.qname, desc, f.loc(), [f"not evaluated: {type(e).__name__}: {e}"])
+            continue
+        segs = None
+        if got:
+            v = got[0]
+            segs = list(v.v) if isinstance(v, Const) and isinstance(v.v, (list, tuple)) else ([getattr(x, "v", None) for x in v] if isinstance(v, (list, tuple)) else None)
+        if segs == ["a", "b", "c", "d"]:
+            rep.ok(rule, f.qname, desc, f.loc())
+        elif segs is None:
+            rep.unknown(rule, f.qname, desc, f.loc(), [f"segments not constant: {got!r}"])
+        else:
+            rep.bad(rule, f.qname, desc, f.loc(), [f"{f.loc()}: the segments are {segs}",
+                    "accept_module('lib') and a function lib.s2.s3.f: its path <lib.s2/s3/f> has no prefix 'lib': f is an external dependency, editing it changes no signature"],
+                    "module-path-segments", what="the canonical path of a module folds components of its dotted name into one segment: deep modules accepted through an ancestor are not tracked")
     return n
